@@ -58,7 +58,8 @@ def parseTab (ts : List String) : Tab :=
   { psize := natD ((kv? ts "psize").getD "0"),
     fi := (parsePairs ((kv? ts "fi").getD "-")).map (fun p => ⟨p.1, p.2⟩),
     li := (parsePairs ((kv? ts "li").getD "-")).map (fun p => ⟨p.1, p.2⟩),
-    names := parseNames ((kv? ts "files").getD "-") }
+    names := parseNames ((kv? ts "files").getD "-"),
+    sizeField := natD ((((kv? ts "hdr").getD "0:0").splitOn ":").headD "0") }
 
 def parseDecRuns (ts : List String) : List (Nat × String) :=
   ts.filterMap fun t =>
@@ -114,6 +115,9 @@ def parseObs (line : String) : Obs :=
   | "tab" :: p :: _ => .tab p line
   | "dec" :: p :: ts => .dec p (parseDecRuns ts)
   | "tra" :: p :: ts => .tra p (parseTraRuns ts)
+  | ["dt", ret, body] => .dt ((ret.drop 4).toString) (if body == "-" then [] else body.splitOn "|")
+  | ["dta", body] => .dta (if body == "-" then [] else body.splitOn "|")
+  | ["ce", t] => .ce t
   | ["r", "load", _, "!fail"] => .loadFail
   | "crash" :: _ => .crash line
   | "sanitizer" :: _ => .crash line
@@ -135,7 +139,7 @@ def renderTab (prog : String) (st : Enc) : String :=
     | some e => e.2
     | none => "?"
   let fs := if files.isEmpty then "-" else ",".intercalate (files.map fun f => s!"{f}:{nm f}")
-  s!"tab {prog} psize={st.psize} fi={renderPairs (fi.map fun s => (s.count, s.file))} li={renderPairs (st.li.map fun r => (r.len, r.line))} files={fs}"
+  s!"tab {prog} psize={st.psize} hdr={sizeFieldOf fi.length st.li.length}:{lnoffOf fi.length % hdrMod} fi={renderPairs (fi.map fun s => (s.count, s.file))} li={renderPairs (st.li.map fun r => (r.len, r.line))} files={fs}"
 
 def rle (xs : List String) : List (Nat × String) :=
   (xs.foldl (fun (acc : List (Nat × String)) x =>
@@ -181,11 +185,19 @@ structure MState where
   evs : List (String × List CEv) := []
   world : World := {}
   machine : Option (Machine × String × String) := none   -- machine, caught, err
+  counts : List (Int × Int) := []                        -- num_arg / num_local per control stack element
   out : List String := []
 
 def parseCsEntry (t : String) : Option CsEntry :=
   match t.splitOn ":" with
   | [k, i, p, o, pc] => some ⟨natD k, natD i, p, o, intD pc⟩
+  | [k, i, p, o, pc, _, _] => some ⟨natD k, natD i, p, o, intD pc⟩
+  | _ => none
+
+def parseCsCounts (t : String) : Option (Int × Int) :=
+  match t.splitOn ":" with
+  | [_, _, _, _, _] => some (-1, -1)
+  | [_, _, _, _, _, a, l] => some (intD a, intD l)
   | _ => none
 
 def parseCs (ts : List String) : Machine × String × String :=
@@ -222,7 +234,21 @@ def modelLine (st : MState) (line : String) : MState :=
     | some t => { st with out := renderDecLine p t :: st.out }           -- MODEL decoder on the real tables
     | none => { st with out := s!"dec {p} !notab" :: st.out }
   | "cs" :: ts =>
-    { st with machine := some (parseCs ts), out := line :: st.out }
+    { st with machine := some (parseCs ts), out := line :: st.out,
+              counts := ts.filterMap fun t => if t.contains '=' then none else parseCsCounts t }
+  | "dt" :: _ =>
+    match st.machine with
+    | some (m, _, _) =>
+      let ls := dumpTrace st.world m                                     -- MODEL dump_trace (0)
+      { st with out := s!"dt ret={dumpTraceRet st.world m} {if ls.isEmpty then "-" else "|".intercalate ls}" :: st.out }
+    | none => { st with out := "dt !nocs" :: st.out }
+  | "dta" :: _ =>
+    match st.machine with
+    | some (m, _, _) =>
+      let ls := dumpTraceArgs m st.counts                                -- MODEL dump_trace (ARGS | LOCALVARS)
+      { st with out := s!"dta {if ls.isEmpty then "-" else "|".intercalate ls}" :: st.out }
+    | none => { st with out := "dta !nocs" :: st.out }
+  | "ce" :: _ => { st with out := line :: st.out }
   | "eh" :: _ =>
     match st.machine with
     | some (m, caught, err) => { st with out := renderEh caught err (errInfo st.world m) :: st.out }
@@ -243,14 +269,19 @@ def runJudge (body : List String) : List String :=
     match toks l with
     | "expect" :: ts => some (parseExpect ts)
     | _ => none
+  let ces := input.filterMap fun l =>
+    match toks l with
+    | "expectce" :: ts => some ({ file := (kv? ts "file").getD "", line := intD ((kv? ts "line").getD "0"),
+                                  text := (kv? ts "text").getD "" } : ExpectCe)
+    | _ => none
   let has (w : String) := input.any fun l => l.startsWith w
   -- a case without its set-up lines is not an observation about C18 (keeps the shrinker honest)
   -- every source file the records name must be written by the case itself (the simul_efun object is part of the mudlib)
   let named := exps.flatMap fun e => [e.file, e.program] ++ e.trace.flatMap fun t => [t.file, t.prog]
   let missing := named.any fun n => n != "" && !n.startsWith "c18/simul_efun" && !(has ("file /" ++ n ++ " "))
-  if missing || (has "load " && !has "file ") || (!exps.isEmpty && !has "load ") then
+  if missing || (has "load " && !has "file ") || ((!exps.isEmpty || !ces.isEmpty) && !has "load ") then
     ["bad setup incomplete-case"] else
-  match judgeEv exps (impl.map parseObs) with
+  match judgeEv exps (impl.map parseObs) ces with
   | [] => ["ok"]
   | vs => vs.map (fun v => s!"bad {v}")
 
